@@ -121,15 +121,20 @@ def resolveSource (i : Inst) (ls : List DLayer) (n : Bytes) (src : Bytes) : Opti
 
 def underLayers (i : Inst) (p : Bytes) : Bool := atOrBelow i.cfg.layerdirs p
 
-/-- is the mount `m` the configured import `imp` (resolved source `src`)? -/
+/-- the mount shows the same device and directory as the path `src` (looked up below the
+    mount itself, i.e. among the mounts that existed before it) -/
+def showsSource (i : Inst) (m : Kernel.KMnt) (src : Bytes) : Bool :=
+  match resolveDevRoot (i.mnts.filter (·.id < m.id)) src with
+  | some (dev, root) => m.dev == dev && m.root == root
+  | none => false
+
+/-- is the mount `m` the configured import `imp` (resolved source `src`)?  A bind mount:
+    it shows the source directory.  Any other type: a mount of that type, made from the
+    configured source string or showing the file system that is mounted at the source path
+    (a second mount of the host's /proc, whatever source string it was given). -/
 def importAsConfigured (i : Inst) (m : Kernel.KMnt) (fstype src : Bytes) : Bool :=
-  if fstype == b!"bind" || fstype == b!"rbind" then
-    -- the mount shows the same device and directory as the source path (looked up below
-    -- the mount itself, i.e. among the mounts that existed before it)
-    match resolveDevRoot (i.mnts.filter (·.id < m.id)) src with
-    | some (dev, root) => m.dev == dev && m.root == root
-    | none => false
-  else m.fstype == fstype
+  if fstype == b!"bind" || fstype == b!"rbind" then showsSource i m src
+  else m.fstype == fstype && (m.source == src || showsSource i m src)
 
 inductive St where
   | error | incomplete | complete | inhabited | mountable | partialmount | mounted | mountedBusy
@@ -161,9 +166,9 @@ def stateOf (i : Inst) (ls : List DLayer) (users : List (Bytes × List User)) (l
   let fhs := fhsDirs.all fun d => Fs.isDir i.fs (pathJoin [build, d])
   -- a derived layer shows its FHS directories only through the overlay
   if derived && ovl.isNone then
-    -- imports mounted without the overlay: some, not none, of the configured mounts
-    let anyImport := l.file.mounts.any fun imp => (topAt i.mnts (pathJoin [build, imp.mount])).isSome
-    if anyImport then .partialmount else .mountable
+    -- something is mounted at or below the build root without the overlay (imports left over
+    -- from a partial unmount, mounts made by hand): mounting the overlay would hide it
+    if mountedAtOrBelow i n then .error else .mountable
   else
   if !fhs then .complete else
   let imports := l.file.mounts.map fun imp =>
